@@ -34,13 +34,13 @@ def cjl(l):
 
 
 def coq_case(c):
-    return "mkC08 %d %d %d %s %s %s %s %s %s %s (%d, %d) (%d, %d)" % (
+    return "mkC08 %d %d %d %s %s %s %s %s %s %s (%d, %d) (%d, %d) %d%%nat %s %s" % (
         c["i"], c["depth"], c["height"], vlib.clist([ctop(o) for o in c["opsa"]]), vlib.clist([ctop(o) for o in c["opsb"]]),
         vlib.clist([vlib.cstr(p) for p in c["prefixes"]]), vlib.clist([cjl(l) for l in c["outa"]]),
         vlib.clist([cjl(l) for l in c["outb"]]), vlib.clist([cjl(l) for l in c["outl"]]),
         vlib.clist(["(%d, %s, %s, %d, %d, %d)" % (g["h"], vlib.cbool(g["found"]), vlib.cZ(g["ver"]), g["vh"], g["ck"], g["off"])
                     for g in c["gets"]]),
-        c["roota"][0], c["roota"][1], c["rootb"][0], c["rootb"][1])
+        c["roota"][0], c["roota"][1], c["rootb"][0], c["rootb"][1], c["mid"], vlib.cstr(c["midp"]), cjl(c["outmid"]))
 
 
 def shard_text(cases):
@@ -48,7 +48,7 @@ def shard_text(cases):
             "Definition MM := Eval vm_compute in c08_run cases.\nPrint MM.\n")
 
 
-CODES = {1: "listings of history A", 2: "listings of history B", 3: "root (hash,count)", 4: "tree get", 5: "listings after dump+load"}
+CODES = {6: "listing taken in the middle of history A", 1: "listings of history A", 2: "listings of history B", 3: "root (hash,count)", 4: "tree get", 5: "listings after dump+load"}
 
 
 def evaluate(ctx, cases, tag, per=8):
